@@ -1,6 +1,8 @@
 import EaselModel.Getopts.Outcomes
 import EaselModel.Getopts.Abbrev
 import EaselModel.Getopts.Ranges
+import EaselModel.Getopts.RealOrder
+import EaselModel.Getopts.Tokens
 /-! # C14 — option processing resolves every configuration by the documented rules
 
 Property theorems about the executable model `EaselModel.Getopts` of `esl_getopts.c` (tied to the working tree by
@@ -10,7 +12,7 @@ the differential run of `harness/h_getopts.c`).  Proofs here are glue on the nam
 Full statement (properties.jsonl) and where each clause is proved, for every well-formed option table (`WF`)
 and every sequence of sources:
 * (a) value = last source that set it, default otherwise; second setting by the same source is a usage error:
-  `sources_are_setting_sequences_*`, `successful_*_is_history`, `last_setter_wins`, `untouched_keeps_state`, `fresh_object_all_default`, `reuse_restores_defaults`,
+  `sources_are_setting_sequences_*`, `spoof_is_cmdline_of_its_words`, `cfg_line_*`, `long_option_*_form`, `long_flag_form`, `short_option_*_form`, `concatenated_short_flags`, `successful_*_is_history`, `last_setter_wins`, `untouched_keeps_state`, `fresh_object_all_default`, `reuse_restores_defaults`,
   `same_source_twice_is_usage_error`, `set_after_toggle_by_same_source_is_usage_error`
 * (b) toggles: `set_option_spec`, `toggle_switches_others_off`, `optlist_element_denotes_named_option`, `optlist_reads_back_names`
 * (c) abbreviations: `abbrev_full_name_resolves`, `abbrev_resolves_iff_unique`, `abbrev_ambiguous_iff`, `abbrev_unknown_iff`
@@ -22,7 +24,7 @@ and every sequence of sources:
 * (f) queries: `isUsed_iff`, `isDefault_of_default_setter`, `not_default_has_setter`
 
 Not proved here (checked by the differential run only): that the decimal `strtod`/`strtol` models agree with glibc;
-that real-valued bounds are read as intended from a range string (integer and character bounds are proved; real ones by examples below). -/
+that `atof` on the start of a two-sided real range string reads exactly the lower-bound literal (proved for integer bounds; for real ones by the examples below). -/
 namespace EaselModel.Props.C14
 open EaselModel.Getopts
 
@@ -38,6 +40,57 @@ theorem sources_are_setting_sequences_cfg (g : G) (content : Str) :
 theorem sources_are_setting_sequences_cmdline (g : G) (argv : List Str) :
     processCmdline g argv = runCmd (fun g' => .done g' .ok false) { g with argv := argv, optind := 1 }
       (parseCmd g.opts 1 (argv.drop 1) false) := processCmdline_eq g argv
+
+/-- a spoofed command line of plain words separated by single blanks is processed exactly like that argv -/
+theorem spoof_is_cmdline_of_its_words (g : G) (ws : List Str) (hs : g.spoofed = false) (hw : ∀ w ∈ ws, SpoofWord w) :
+    processSpoof g (joinSp ws) = processCmdline { g with spoofed := true } ws := processSpoof_words g ws hs hw
+
+/-- config-file lines: `name arg` sets option `name` to `arg`; `name` alone switches a boolean on, is a usage error
+    for an option that takes an argument, and is a usage error when `name` is not (exactly) an option of the table -/
+theorem cfg_line_name_arg {opts : List Opt} {name arg : Str} {i : Nat} (hn : Plain wsDelim name) (ha : Plain wsDelim arg)
+    (hq : arg.head? ≠ some '"') (hdash : name.head? = some '-') (hi : optidxExactly opts name = some i)
+    (ht : (opts.getD i default).type ≠ 0) :
+    cfgItem opts (name ++ ' ' :: (arg ++ ['\n'])) = some (.set i (some arg)) := cfgItem_name_arg hn ha hq hdash hi ht
+
+theorem cfg_line_flag {opts : List Opt} {name : Str} {i : Nat} (hn : Plain wsDelim name) (hdash : name.head? = some '-')
+    (hi : optidxExactly opts name = some i) (ht : (opts.getD i default).type = 0) :
+    cfgItem opts (name ++ ['\n']) = some (.set i none) := cfgItem_flag hn hdash hi ht
+
+theorem cfg_line_missing_argument {opts : List Opt} {name : Str} {i : Nat} (hn : Plain wsDelim name) (hdash : name.head? = some '-')
+    (hi : optidxExactly opts name = some i) (ht : (opts.getD i default).type ≠ 0) :
+    cfgItem opts (name ++ ['\n']) = some .usage := cfgItem_missing_arg hn hdash hi ht
+
+theorem cfg_line_unknown_option {opts : List Opt} {name : Str} (hn : Plain wsDelim name) (hdash : name.head? = some '-')
+    (hi : optidxExactly opts name = none) : cfgItem opts (name ++ ['\n']) = some .usage := cfgItem_unknown hn hdash hi
+
+/-- the documented command-line forms: `--name=value`, `--name value`, `--flag`, `-Wvalue`, `-W value`, and
+    concatenated booleans `-abc` = `-a -b -c` (each is the `set_option` call one expects) -/
+theorem long_option_eq_form {opts : List Opt} {name v : Str} {i : Nat} (k : Nat) (next : Option Str) (hne : '=' ∉ name)
+    (hi : optidxAbbrev opts name = .found i) (ht : (opts.getD i default).type ≠ 0) :
+    parseLong opts k (name ++ '=' :: v) next = ([.set i (some v) (k + 1)], some false) := parseLong_eq_form k next hne hi ht
+
+theorem long_option_sep_form {opts : List Opt} {name v : Str} {i : Nat} (k : Nat) (hne : '=' ∉ name)
+    (hi : optidxAbbrev opts name = .found i) (ht : (opts.getD i default).type ≠ 0)
+    (hv : (isStringy (opts.getD i default).type && startsWithDash v) = false) :
+    parseLong opts k name (some v) = ([.set i (some v) (k + 2)], some true) := parseLong_sep_form k hne hi ht hv
+
+theorem long_flag_form {opts : List Opt} {name : Str} {i : Nat} (k : Nat) (next : Option Str) (hne : '=' ∉ name)
+    (hi : optidxAbbrev opts name = .found i) (ht : (opts.getD i default).type = 0) :
+    parseLong opts k name next = ([.set i none (k + 1)], some false) := parseLong_flag k next hne hi ht
+
+theorem short_option_attached_form {opts : List Opt} {c : Char} {v : Str} {i : Nat} (k : Nat) (next : Option Str)
+    (hf : findShort opts c = some i) (ht : (opts.getD i default).type ≠ 0) (hv : v ≠ []) :
+    parseStd opts k (c :: v) next = ([.set i (some v) (k + 1)], some false) := parseStd_attached k next hf ht hv
+
+theorem short_option_sep_form {opts : List Opt} {c : Char} {v : Str} {i : Nat} (k : Nat)
+    (hf : findShort opts c = some i) (ht : (opts.getD i default).type ≠ 0)
+    (hv : (isStringy (opts.getD i default).type && startsWithDash v) = false) :
+    parseStd opts k [c] (some v) = ([.set i (some v) (k + 2)], some true) := parseStd_sep k hf ht hv
+
+theorem concatenated_short_flags {opts : List Opt} {c : Char} {cs : Str} {i : Nat} (k : Nat) (next : Option Str)
+    (hf : findShort opts c = some i) (ht : (opts.getD i default).type = 0) (hcs : cs ≠ []) :
+    parseStd opts k (c :: cs) next = (.set i none (k + 1) :: (parseStd opts k cs next).1, (parseStd opts k cs next).2) :=
+  parseStd_cluster_flag k next hf ht hcs
 
 /-- a run of settings that succeeds is a history in the sense of `runSets` -/
 theorem successful_run_is_history (es : List Ev) (g g' : G) (m : Bool) (h : runEvs g es = .done g' .ok m) :
@@ -264,6 +317,23 @@ theorem range_string_two_sided (c : Char) (lo hi : Str) (geq leq : Bool) (hc : c
       some { lower := some (twoSided c lo geq leq hi), geq := geq, upper := some hi, leq := leq } :=
   parseRange_twoSided c lo hi geq leq hc hc1 hc2 hhi
 
+/-- real-valued ranges: the comparison is the order of the rationals that the decimal spellings denote
+    (`Dec.value`); the lower bound of a two-sided range is what `atof` reads at the start of the range string -/
+theorem real_range_two_sided (v lo hi : Str) (geq leq : Bool) (hc : 'x' ∉ lo) (hhi : leq = false → hi.head? ≠ some '=') :
+    realRangeOk v (some (twoSided 'x' lo geq leq hi)) = true ↔
+      ((if geq then (atof (twoSided 'x' lo geq leq hi)).value ≤ (atof v).value
+                else (atof (twoSided 'x' lo geq leq hi)).value < (atof v).value) ∧
+       (if leq then (atof v).value ≤ (atof hi).value else (atof v).value < (atof hi).value)) :=
+  realRangeOk_twoSided_iff v lo hi geq leq hc hhi
+
+theorem real_range_lower (v a : Str) (incl : Bool) (h : incl = false → a.head? ≠ some '=') :
+    realRangeOk v (some ('x' :: '>' :: ((if incl then ['='] else []) ++ a))) = true ↔
+      (if incl then (atof a).value ≤ (atof v).value else (atof a).value < (atof v).value) := realRangeOk_lower_iff v a incl h
+
+theorem real_range_upper (v b : Str) (incl : Bool) (h : incl = false → b.head? ≠ some '=') :
+    realRangeOk v (some ('x' :: '<' :: ((if incl then ['='] else []) ++ b))) = true ↔
+      (if incl then (atof v).value ≤ (atof b).value else (atof v).value < (atof b).value) := realRangeOk_upper_iff v b incl h
+
 theorem char_range_two_sided (v lo hi : Str) (geq leq : Bool) (hc : 'c' ∉ lo) (hne : lo ≠ []) (hhi : leq = false → hi.head? ≠ some '=') :
     charRangeOk v (some (twoSided 'c' lo geq leq hi)) =
       ((if geq then decide ((v.getD 0 '\x00').toNat ≥ (lo.getD 0 '\x00').toNat) else decide ((v.getD 0 '\x00').toNat > (lo.getD 0 '\x00').toNat)) &&
@@ -345,6 +415,32 @@ example : (run2.valOf 1, run2.setter 1, run2.valOf 2, run2.setter 2) = (.null, 1
 example : (run2.valOf 3, run2.setter 3, run2.nfiles) = (.str (s "7"), 1, 1) := by decide
 /-- a config-file line naming an argument-taking option without argument (fix 8d4fde4) -/
 example : (match processConfigfile demoG (s "-n\n") with | .done g st m => (st, m, g.nfiles) | .fault => default) = (.esyntax, true, 0) := by decide
+
+/-- histories: config file 1 sets `-b` (setter 3), the command line then sets `--no-b` (setter 1): `--no-b` is the last
+    call touching both options; instances of `last_setter_wins` and `toggle_switches_others_off` -/
+def hist : List Ev := [⟨1, none, 3⟩, ⟨3, some (s "5"), 3⟩, ⟨2, none, 1⟩]
+def histG : G := (runSets demoG hist).getD default
+example : runSets demoG hist = some histG := by decide
+example : ∀ e' ∈ ([] : List Ev), touches demoG.opts e' 2 = false := by decide
+example : (histG.valOf 2, histG.setter 2) = (newVal (demoG.opt 2) none, 1) := by decide
+example : 1 ∈ listIdx demoG.opts (demoG.opt 2).toggle ∧ isOn histG 1 = false ∧ histG.setter 1 = 1 := by decide
+example : touches demoG.opts ⟨2, none, 1⟩ 3 = false ∧ (histG.valOf 3, histG.setter 3) = (.str (s "5"), 3) := by decide
+/-- a toggle conflict: `-b` and `--no-b` from the same source -/
+example : Conflict ((runSets demoG [⟨1, none, 1⟩]).getD default) 2 1 (listIdx demo (demoG.opt 2).toggle) :=
+  ⟨1, by decide, by decide, by decide, by decide⟩
+example : (match setOption ((runSets demoG [⟨1, none, 1⟩]).getD default) 2 none 1 with | .done _ st m => (st, m) | .fault => (.ok, false))
+    = (.esyntax, true) := by decide
+/-- command-line forms on the demo table -/
+example : parseCmd demo 1 [s "-ab", s "-n9", s "--lown=5", s "--hin", s "-3", s "--", s "x"] false =
+    [.set 0 none 2, .set 1 none 2, .set 3 (some (s "9")) 3, .set 4 (some (s "5")) 4, .set 5 (some (s "-3")) 6, .stop .ok false 7] := by decide
+/-- spoofed command line = argv of its words; config-file line forms -/
+example : SpoofWord (s "--lown=5") ∧ SpoofWord (s "-a") ∧ joinSp [s "prog", s "-a", s "--lown=5"] = s "prog -a --lown=5" := by
+  refine ⟨⟨⟨by decide, by decide⟩, by decide⟩, ⟨⟨by decide, by decide⟩, by decide⟩, by decide⟩
+example : cfgItem demo (s "-n 7\n") = some (.set 3 (some (s "7"))) ∧ cfgItem demo (s "-a\n") = some (.set 0 none) ∧
+    cfgItem demo (s "-n\n") = some .usage ∧ cfgItem demo (s "--mu\n") = some .usage := by decide
+/-- `every_history_ends_cleanly` on a concrete history (bad value, then config file, then `--` handling) -/
+example : (runAll demoG [.cmdline [s "prog", s "-n", s "99"], .cfg (s "-b\n-n 3\n"), .cmdline [s "prog", s "--no-b", s "--", s "-a"]]).map (·.1)
+    = some [(.esyntax, true), (.ok, false), (.ok, false)] := by decide
 
 /-- documented range strings -/
 example : twoSided 'n' (s "0") true false (s "10") = s "0<=n<10" := by decide
